@@ -347,6 +347,51 @@ func TestC05(t *testing.T) {
 			}
 		})
 	})
+	if tier() == "thorough" {
+		// exhaustively: every single-bit flip of content and of each external id of valid entries
+		// (RCD-1 and RCD-e, transfer and conversion) at function level
+		t.Run("all-bit-flips", func(t *testing.T) {
+			rcde := uint32(1000)
+			fat2.Fat2RCDEActivation = rcde
+			n := 0
+			for ai, eth := range []bool{false, true, false, true} {
+				a := NewActor(ai, eth)
+				txs := []Tx{{From: a.FA(), Asset: "pUSD", Amt: 1234567, Outs: []Xfer{{To: NewActor(9, false).FA(), Amt: 1234567}}}}
+				if ai >= 2 {
+					txs = []Tx{{From: a.FA(), Asset: "PEG", Amt: 99, Conv: "pXBT"}, {From: a.FA(), Asset: "pUSD", Amt: 5, Outs: []Xfer{{To: a.FA(), Amt: 5}}}}
+				}
+				h := uint32(1002)
+				base := FATEntry(h, 3, 17, a, txs)
+				if implValidate(base, h) != nil || refValidate(base, h, rcde) != nil {
+					t.Fatalf("harness: base entry not valid")
+				}
+				parts := append([][]byte{base.Content}, base.ExtIDs...)
+				for pi, part := range parts {
+					for bi := 0; bi < len(part)*8; bi++ {
+						m := base.Clone()
+						if pi == 0 {
+							m.Content[bi/8] ^= 1 << uint(bi%8)
+						} else {
+							m.ExtIDs[pi-1][bi/8] ^= 1 << uint(bi%8)
+						}
+						n++
+						ierr, rerr := implValidate(m, h), refValidate(m, h, rcde)
+						if ierr == nil && rerr != nil {
+							msg := fmt.Sprintf("pegnetd accepts a single-bit flip (part %d bit %d) of a valid entry that the reference validator rejects: %v", pi, bi, rerr)
+							fail(st, t, msg, map[string]interface{}{"fn": m, "h": h})
+						}
+						if ierr == nil && !(eth && pi == 3 && bi/8 == 64) {
+							// accepted by both: only the RCD-e recovery byte may be flipped without invalidating the entry (registered finding at chain level)
+							msg := fmt.Sprintf("a single-bit flip (part %d bit %d) of a valid entry is still accepted", pi, bi)
+							fail(st, t, msg, map[string]interface{}{"fn": m, "h": h})
+						}
+					}
+				}
+			}
+			st.Add("exhaustive_single_bit_flips", int64(n))
+			st.Note("all %d single-bit flips of 4 valid entries checked at function level", n)
+		})
+	}
 	t.Run("chain", func(t *testing.T) {
 		rapid.Check(t, func(rt *rapid.T) {
 			c := genAuthCase(rt, st)
